@@ -91,7 +91,7 @@ def generate(seed, tier):
         elif o == 'SETCOUNTER':
             ops.append({'op': 'STEP', 'how': r.choice(['set', 'add']), 'n': r.randint(0, 9)})
         elif o in ('DEF_LOCAL', 'DEF_GLOBAL'):
-            ops.append({'op': o, 'name': r.choice(NAMES + NAMES + FRESH), 'id': ident, 'form': r.choice(['plain', 'plain', 'e'])})
+            ops.append({'op': o, 'name': r.choice(NAMES + NAMES + FRESH), 'id': ident, 'form': r.choice(['plain', 'plain', 'e', 'rc'])})
             ident += 1
             if r.random() < 0.2:
                 ops.append({'op': 'EMPTY'})
@@ -485,7 +485,9 @@ def compile_tex(ops, global_prefix=False):
             src.append(('\\edef\\%s{%s%d}' if op.get('form') == 'e' else '\\def\\%s{%s%d}') % (op['name'], op['name'], op['id']))
             m.def_local(op['name'], op['id'])
         elif o == 'DEF_GLOBAL':
-            src.append(('\\global\\def\\%s{%s%d}' if global_prefix else ('\\xdef\\%s{%s%d}' if op.get('form') == 'e' else '\\gdef\\%s{%s%d}'))
+            # (form 'rc': plasTeX's \newcommand family inserts globally - Context.newcommand uses addGlobal)
+            src.append(('\\global\\def\\%s{%s%d}' if global_prefix else ('\\xdef\\%s{%s%d}' if op.get('form') == 'e' else
+                        ('\\renewcommand{\\%s}{%s%d}' if op.get('form') == 'rc' else '\\gdef\\%s{%s%d}')))
                        % (op['name'], op['name'], op['id']))
             m.def_global(op['name'], op['id'])
         elif o == 'LET':
